@@ -101,7 +101,7 @@ func ContentionWith(seed int64, index int, tier string, opts ContentionOpts) *sp
 	if nOrg > G {
 		nOrg = G
 	}
-	quotas := composition(r, G, nOrg) // org quotas sum to the capacity
+	quotas := composition(r, G, nOrg)   // org quotas sum to the capacity
 	if r.IntN(5) == 0 && !blockedHead { // sometimes the quotas do not add up
 		quotas[r.IntN(nOrg)] += pk(-1, 1)
 		for i := range quotas {
